@@ -1212,6 +1212,10 @@ val gen_next : z list -> gen_state -> (node option * gen_state) * z list
 
 val set_nth : nat -> 'a1 -> 'a1 list -> 'a1 list
 
+val drain :
+  nat -> z list -> gen_state -> node list -> ((node list * node
+  option) * gen_state) * z list
+
 val nd_loop : nat -> nat -> z list -> pending -> node list -> node list result
 
 val count_nodes : json -> nat
